@@ -108,3 +108,252 @@ def _(c):
     yield "touch", is_update(S0.t(MB), S1.t(MB), lambda r: r.id == m,
                              {"updated": to_term(sm["server_rx"], "real")}), ["C12"]
     yield "committed", Not(S1.in_tx["ch"]), ["C09"]
+
+
+# ---------------------------------------------------------------- listeners
+from pvc import heap as H            # noqa: E402
+from pvc import callbacks as CB      # noqa: E402
+from pvc.symex import card           # noqa: E402
+
+
+def LS(S):
+    return S.heap["Mailbox._listeners"]
+
+
+c = contract("server.Mailbox.add_listener", cls="Mailbox",
+             params={"handle": "ref:WebSocketServer", "send_f": "callback:send:handle", "stop_f": "callback:stop:handle"},
+             result="list:sm@rowlist:ch.messages", modifies=["heap.Mailbox._listeners"], tags=["C01", "C02", "C17"])
+
+
+@c.ensures
+def _(c):
+    me = c.self_ref
+    yield "registered", LS(c.post) == Store(LS(c.pre), me, Store(LS(c.pre)[me], c.a.handle.t, True)), ["C02"]
+    for n, t, tags in messages_result_clauses(c, c.result):
+        yield "returns_get_messages." + n, t, tags
+
+
+c = contract("server.Mailbox.remove_listener", cls="Mailbox", params={"handle": "ref:WebSocketServer"},
+             modifies=["heap.Mailbox._listeners"], tags=["C02", "C08", "C17"])
+
+
+@c.ensures
+def _(c):
+    me = c.self_ref
+    yield "unregistered", LS(c.post) == Store(LS(c.pre), me, Store(LS(c.pre)[me], c.a.handle.t, False)), ["C02"]
+
+
+c = contract("server.Mailbox.has_listeners", cls="Mailbox", params={}, result="bool", modifies=[],
+             tags=["C12", "C17"])
+
+
+@c.ensures
+def _(c):
+    ls = LS(c.pre)[c.self_ref]
+    yield "nonempty", to_term(c.result, "bool") == EX([INT], lambda h: ls[h]), ["C12"]
+
+
+c = contract("server.Mailbox.count_listeners", cls="Mailbox", params={}, result="int", modifies=[],
+             tags=["C15", "C17"])
+
+
+@c.ensures
+def _(c):
+    yield "cardinality", to_term(c.result, "int") == card(LS(c.pre)[c.self_ref]), ["C15"]
+
+
+# ---------------------------------------------------------------- broadcast / add_message
+def is_message_frame(fr, sm):
+    f = sm.fields
+    FV = H.FV
+    return And(fr[S("type")] == FV.fstr(S("message")),
+               fr[S("side")] == FV.fstr(to_term(f["side"], "str")),
+               fr[S("phase")] == FV.fstr(to_term(f["phase"], "str")),
+               fr[S("body")] == FV.fstr(to_term(f["body"], "str")),
+               fr[S("server_rx")] == FV.fnum(to_term(f["server_rx"], "real")),
+               fr[S("id")] == FV.fjson(to_term(f["msg_id"], "json")),
+               FV.is_fnum(fr[S("server_tx")]),
+               FA([Str], lambda k: Implies(And(k != S("type"), k != S("side"), k != S("phase"), k != S("body"),
+                                               k != S("server_rx"), k != S("id"), k != S("server_tx")),
+                                           fr[k] == FV.absent)))
+
+
+def fanout(S0, S1, who, sm):
+    """every connection c with who(c) gets exactly one more frame, message(sm);
+    every other connection's outbox is unchanged"""
+    def per_conn(cn):
+        n = S0.out_len[cn]
+        got = And(S1.out_len[cn] == n + 1,
+                  EX([H.Frame], lambda fr: And(S1.out_buf[cn] == Store(S0.out_buf[cn], n, fr), is_message_frame(fr, sm))))
+        same = And(S1.out_len[cn] == n, S1.out_buf[cn] == S0.out_buf[cn])
+        return If(who(cn), got, same)
+    return FA([INT], per_conn, pats=lambda cn: [S1.out_len[cn]])
+
+
+c = contract("server.Mailbox.broadcast_message", cls="Mailbox", params={"sm": "sm"}, modifies=["out"],
+             tags=["C02", "C09", "C17"])
+
+
+@c.requires
+def _(c):
+    yield "clean", I.Clean(c.pre)       # C09: frames are emitted only from a committed state
+
+
+@c.ensures
+def _(c):
+    ls = LS(c.pre)[c.self_ref]
+    yield "each_listener_once", fanout(c.pre, c.post, lambda cn: ls[cn], c.a.sm), ["C02"]
+
+
+@c.loop(0, modifies=["out"], tags=["C02"])
+def _(c, L):
+    yield "done_got_it", fanout(c.pre, c.post, lambda cn: L.done(cn), c.a.sm)
+
+
+c = contract("server.Mailbox.add_message", cls="Mailbox", params={"sm": "sm"},
+             modifies=[MSG, MB, "in_tx.ch", "out"], tags=["C01", "C02", "C09", "C12", "C17"])
+
+
+@c.requires
+def _(c):
+    a, m = c.sf("_app_id"), c.sf("_mailbox_id")
+    yield "mailbox_row_live", c.pre.t(MB).exists(lambda r: And(r.id == m, r.app_id == a))
+    yield "clean_us", Not(c.pre.in_tx["us"])
+
+
+@c.ensures
+def _(c):
+    S0, S1 = c.pre, c.post
+    a, m = c.sf("_app_id"), c.sf("_mailbox_id")
+    sm = c.a.sm.fields
+    yield "persisted", is_insert(S0.t(MSG), S1.t(MSG), {
+        "app_id": a, "mailbox_id": m, "side": to_term(sm["side"], "str"), "phase": to_term(sm["phase"], "str"),
+        "body": to_term(sm["body"], "str"), "server_rx": to_term(sm["server_rx"], "real"),
+        "msg_id": to_term(sm["msg_id"], "json")}), ["C01", "C02"]
+    yield "touch", is_update(S0.t(MB), S1.t(MB), lambda r: r.id == m,
+                             {"updated": to_term(sm["server_rx"], "real")}), ["C12"]
+    yield "committed", Not(S1.in_tx["ch"]), ["C09"]
+    ls = LS(S0)[c.self_ref]
+    yield "fanout", fanout(S0, S1, lambda cn: ls[cn], c.a.sm), ["C02"]
+
+
+# ---------------------------------------------------------------- close
+from . import specs                                       # noqa: E402
+from pvc.state import is_insert_where, comp_eq            # noqa: E402
+
+UNP, UMB = "us.nameplates", "us.mailboxes"
+CLOSE_MOD = [MS, MB, MSG, NP, NS, UNP, UMB, "in_tx.ch", "in_tx.us", "heap.Mailbox._listeners",
+             "heap.AppNamespace._mailboxes"]
+c = contract("server.Mailbox.close", cls="Mailbox", params={"side": "str", "mood": "optstr", "when": "real"},
+             modifies=CLOSE_MOD, tags=["C01", "C06", "C07", "C08", "C09", "C10", "C13", "C14", "C15", "C16", "C17"])
+
+
+@c.requires
+def _(c):
+    S = c.pre
+    yield "I1", I.I1(S)
+    yield "I2", I.I2(S)
+    yield "I4", I.I4(S)
+    yield "I5", I.I5(S)
+    yield "I6", I.I6(S)
+    yield "I7", I.I7(S)
+    yield "I8a", I.I8a(S)
+    yield "clean", I.Clean(S)
+    app = S.heap["Mailbox._app"][c.self_ref]
+    yield "app_consistent", And(app != 0, S.heap["AppNamespace._app_id"][app] == c.sf("_app_id"))
+
+
+def unchanged_all(c, comps):
+    return conj([comp_eq(k, c.pre.get_comp(k), c.post.get_comp(k)) for k in comps])
+
+
+@c.ensures
+def _(c):
+    from .appnamespace import mb_summary_spec, np_summary_spec, row_usage
+    S0, S1 = c.pre, c.post
+    a, m = c.sf("_app_id"), c.sf("_mailbox_id")
+    side, when = c.a.t("side"), c.a.t("when")
+    mood_none, mood = c.a.mood.is_none, to_term(c.a.mood.val, "str")
+    me = c.self_ref
+    app = S0.heap["Mailbox._app"][me]
+    mb0, ms0, msg0, np0, ns0 = S0.t(MB), S0.t(MS), S0.t(MSG), S0.t(NP), S0.t(NS)
+    mb1, ms1, msg1, np1, ns1 = S1.t(MB), S1.t(MS), S1.t(MSG), S1.t(NP), S1.t(NS)
+    B = mb0.exists(lambda r: And(r.app_id == a, r.id == m))
+    mine = lambda r: And(r.mailbox_id == m, r.side == side)
+    s = ms0.exists(mine)
+    act = And(B, s)
+    # C08/C14: closing what is not there (or what this side never opened) changes nothing
+    yield "noop", Implies(Not(act), unchanged_all(c, CLOSE_MOD)), ["C08", "C14"]
+    # no other side of this mailbox is still open
+    last = ms0.none(lambda r: And(r.mailbox_id == m, r.side != side, r.opened))
+    flag = is_update(ms0, ms1, mine, {"opened": BoolVal(False), "mood": (mood_none, mood)})
+    yield "delete_iff_last", Implies(act, mb1.exists(lambda r: r.id == m) == Not(last)), ["C08"]
+    # the mailbox survives: this side's row is flagged closed with its mood, nothing else moves
+    yield "survives", Implies(And(act, Not(last)), And(
+        flag, *[comp_eq(k, S0.get_comp(k), S1.get_comp(k)) for k in CLOSE_MOD if k not in (MS, "in_tx.ch", "in_tx.us")])), ["C08", "C12"]
+    dele = And(act, last)
+    # the mailbox goes, and with it exactly: its messages, its side rows, the nameplate pointing at it and
+    # that nameplate's side rows; every other row of every table stays (C08, C07, C06, C01)
+    yield "delete_complete.mailboxes", Implies(dele, is_delete(mb0, mb1, lambda r: r.id == m)), ["C08", "C06"]
+    yield "delete_complete.mailbox_sides", Implies(dele, is_delete(ms0, ms1, lambda r: r.mailbox_id == m)), ["C08", "C06"]
+    yield "delete_complete.messages", Implies(dele, is_delete(msg0, msg1, lambda r: And(r.app_id == a, r.mailbox_id == m))), ["C08", "C01", "C13", "C06"]
+    yield "delete_complete.nameplates", Implies(dele, is_delete(np0, np1, lambda r: r.mailbox_id == m)), ["C08", "C07", "C06"]
+    yield "nameplate_cleanup_exact", Implies(dele, is_delete(
+        ns0, ns1, lambda r: And(np0.live[r.nameplates_id], np0.cols["mailbox_id"][r.nameplates_id] == m))), ["C07", "C06", "C08"]
+    # C15/C16: one usage record for the mailbox and one for the nameplate retired with it
+    member = lambda r: And(ms0.live[r], ms0.cols["mailbox_id"][r] == m)
+    added = lambda r: ms0.cols["added"][r]
+    mood_is = lambda r, sv: If(ms0.cols["side"][r] == side, And(Not(mood_none), mood == sv),
+                               And(Not(ms0.nulls["mood"][r]), ms0.cols["mood"][r] == sv))
+    yield "usage_one_per_retired.mailboxes", If(
+        And(dele, H.CFG_USAGE),
+        is_insert_where(S0.t(UMB), S1.t(UMB), lambda row: And(
+            row.app_id == a,
+            mb0.exists(lambda r: And(r.app_id == a, r.id == m, r.for_nameplate == row.for_nameplate)),
+            *[t for _, t, _ in mb_summary_spec(None, when, BoolVal(False), *row_usage(row), member=member,
+                                               added=added, mood_is=mood_is)])),
+        tbl_eq(S0.t(UMB), S1.t(UMB))), ["C15", "C16"]
+
+    def np_usage(n):
+        return np_usage_rel(S0.t(UNP), S1.t(UNP), ns0, n, a, when)
+    points = lambda n: And(np0.live[n], np0.cols["mailbox_id"][n] == m)
+    yield "usage_one_per_retired.nameplates", If(
+        And(dele, H.CFG_USAGE, EX([INT], points)),
+        FA([INT], lambda n: Implies(points(n), np_usage(n))),
+        tbl_eq(S0.t(UNP), S1.t(UNP))), ["C15", "C16"]
+    # registry: a deleted mailbox is unregistered and has no listeners left
+    ls0, ls1 = S0.heap["Mailbox._listeners"], S1.heap["Mailbox._listeners"]
+    r0, r1 = S0.heap["AppNamespace._mailboxes"], S1.heap["AppNamespace._mailboxes"]
+    yield "registry", Implies(dele, And(ls1 == Store(ls0, me, K(INT, BoolVal(False))),
+                                        r1 == Store(r0, app, Store(r0[app], m, 0)))), ["C02", "C08"]
+    yield "committed", I.Clean(S1), ["C09"]
+
+
+def np_usage_rel(U0, U1, ns0, n, a, when):
+    from .appnamespace import np_summary_spec, row_usage
+    nmember = lambda r: And(ns0.live[r], ns0.cols["nameplates_id"][r] == n)
+    nadded = lambda r: ns0.cols["added"][r]
+    return is_insert_where(U0, U1, lambda row: And(row.app_id == a, *[
+        t for _, t, _ in np_summary_spec(None, when, BoolVal(False), *row_usage(row), member=nmember, added=nadded)]))
+
+
+@c.loop(0, modifies=[NS, UNP, "in_tx.ch", "in_tx.us"], tags=["C07", "C08", "C15", "C06"])
+def _(c, L):
+    """nameplate clean-up loop: the side rows of the nameplates processed so far are gone (and
+    summarised); by I6 at most one nameplate points at the mailbox"""
+    E, S = L.entry, c.post
+    a, when = c.sf("_app_id"), c.a.t("when")
+    rows = L.seq
+    yield "at_most_one_nameplate", rows.n <= 1
+    yield "sides_of_done_gone", is_delete(E.t(NS), S.t(NS), lambda r: L.done(r.nameplates_id))
+    did = And(H.CFG_USAGE, L.k >= 1)
+    yield "usage", If(did, np_usage_rel(E.t(UNP), S.t(UNP), E.t(NS), rows.rid[0], a, when),
+                      tbl_eq(E.t(UNP), S.t(UNP)))
+    yield "in_tx_us", If(did, S.in_tx["us"], S.in_tx["us"] == E.in_tx["us"])
+    from pvc.state import arrays_equal
+    yield "untouched_before_first", Implies(L.k == 0, And(arrays_equal(E.t(NS), S.t(NS)), arrays_equal(E.t(UNP), S.t(UNP))))
+
+
+@c.loop(1, modifies=[], tags=["C08"])
+def _(c, L):
+    yield "trivial", BoolVal(True)
